@@ -41,8 +41,19 @@ Definition future_consistent (u : uri) : Prop :=
 Definition lone_empty_hostless (u : uri) : bool :=
   negb (is_host_set u) && match pathSegs u with [[]] => true | _ => false end.
 
+(* nor a path that would be written with "//" in front although it is no authority: an empty first
+   segment followed by another one under the absolutePath flag, or two empty first segments of a
+   host-less rootless path.  The parser cannot produce one ("//x" is read as an authority); resolution,
+   reference creation and normalization put a "." segment in front (uriFixAmbiguity) *)
+Definition ambiguous_path (u : uri) : bool :=
+  match absolutePath u, pathSegs u with
+  | true, [] :: _ :: _ => true
+  | false, [] :: [] :: _ => negb (is_host_set u)
+  | _, _ => false
+  end.
+
 Definition uri_wf (u : uri) : Prop :=
-  uri_pct_wf u = true /\ future_consistent u /\ lone_empty_hostless u = false.
+  uri_pct_wf u = true /\ future_consistent u /\ lone_empty_hostless u = false /\ ambiguous_path u = false.
 
 (* all fields but [owner] (which says who owns the memory, not what the URI is) *)
 Definition components (u : uri) :=
